@@ -35,13 +35,26 @@ Class(e) ==
     [] e \in {"add_optional_field", "remove_optional_field", "reorder_fields", "add_alias", "remove_alias",
               "add_stream_step", "add_vector_step", "add_optional_step", "enum_add_value", "flags_add_value",
               "remove_last_optional_field"} -> "compatible"
+    [] e \in {"change_field_type_partial"} -> "partial"
     [] e \in {"int_to_long", "int_to_float", "int_to_string", "float_to_double", "string_to_int", "make_optional", "optional_to_union",
               "add_union_case", "remove_union_case", "add_required_field", "remove_required_field", "remove_first_required_field",
               "remove_last_required_field", "remove_last_two_fields", "add_first_required_field"} -> "partial"
     [] OTHER -> "breaking"
 
 Positions == {"step", "stream_item", "field", "alias", "vector_item", "optional", "vector_of_optional", "stream_of_optional",
-              "optional_vector", "field_of_nested_record"}
+              "optional_vector", "field_of_nested_record",
+              \* the record holding the edited type is reached only through a type argument of a generic: directly, as the second or
+              \* third instantiation of that generic in the protocol (an earlier step uses it with another argument), nested, through a
+              \* generic alias, with both instantiations inside one record; and as a union case / map value
+              "generic_arg", "second_instantiation", "third_instantiation", "nested_generic_arg", "generic_alias_arg",
+              "second_instantiation_alias", "second_instantiation_in_record", "union_case_record"}
+\* (a record used as a map value is not in the list: the evolution guide says nothing about maps and the tool rejects every change there)
+
+\* definition-level edits of a record, with the record used at these positions
+RecordEdits == {"add_optional_field", "remove_optional_field", "reorder_fields", "add_required_field", "remove_required_field",
+                "change_field_type_breaking", "change_field_type_partial"}
+RecordPositions == {"step", "generic_arg", "second_instantiation", "second_instantiation_alias", "second_instantiation_in_record",
+                    "vector_item", "field_of_record", "union_case_record", "optional", "stream_item"}
 
 \* where a type-level edit makes sense
 Applicable(e, p) ==
@@ -49,7 +62,8 @@ Applicable(e, p) ==
   /\ (e \in {"scalar_to_vector", "scalar_to_array", "vector_to_scalar"} => p \notin {"vector_item", "optional_vector"} \/ TRUE)
 
 Cases == { [edit |-> t.e, pos |-> p, class |-> Class(t.e)] : t \in TypeEdits, p \in Positions } \cup
-         { [edit |-> d.e, pos |-> "definition", class |-> Class(d.e)] : d \in DefEdits }
+         { [edit |-> d.e, pos |-> "definition", class |-> Class(d.e)] : d \in DefEdits } \cup
+         { [edit |-> e, pos |-> p, class |-> Class(e)] : e \in RecordEdits, p \in RecordPositions }
 Enumerated == { c \in Cases : c.pos = "definition" \/ Applicable(c.edit, c.pos) }
 
 Required(c) == CASE c.class = "meaning_preserving" -> [exit |-> 0, warnings |-> "none", errors |-> "none"]
